@@ -347,6 +347,6 @@ def check(model, rep, tier):
               'loses the types assigned on that path')
   rep.depends('C07', ['LV-CLOSURE'],
               'closure types are recorded at the call sites that the reaching function definitions (DEFINED_FNS_IN) connect to a local function')
-  rep.depends('C08', ['PARAMS', 'ACT-TRAV'],
+  rep.depends('C08', ['PARAMS', 'ACT-TRAV', 'FINALIZE'],
               'argument types are seeded from the parameters the activity '
               'analysis records, strong updates from its modified sets')
